@@ -53,7 +53,7 @@ def cases(tier, seed):
                                'mode': 'normal'}
     rng = common.rng_for(seed, ID)
     # D2 double faults (step + cleanup), seeded
-    n2 = 1500 if tier == 'quick' else 30000
+    n2 = 5000 if tier == 'quick' else 30000
     for _ in range(n2):
         n = rng.choice((1, 2, 3))
         counts = {'conf': 1, 'setup': n, 'before-assert': n, 'assert': n, 'cleanup': n}
@@ -77,7 +77,7 @@ def cases(tier, seed):
             for i, e in enumerate(('pass', 'fail', 'hard_cleanup')):
                 yield {'d': 1, 'ending': e, 'keep': (i + len(ok)) % 2 == 0, 'disturb': [], 'out': ok,
                        'rc': (11 * len(ok) + 3 * i) % 256, 'where': 'setup', 'tr': tr}
-    n1 = 1500 if tier == 'quick' else 25000
+    n1 = 5000 if tier == 'quick' else 25000
     for _ in range(n1):
         k = rng.randrange(0, 6)
         yield {'d': 1, 'ending': rng.choice(D1_ENDINGS), 'keep': rng.random() < 0.5,
